@@ -2,6 +2,22 @@
 //! `luasyn` AST.  It is the behavioural oracle of the harness: an original and a transformed
 //! program are both run here and their observable behaviour (trace of host calls, returned
 //! values / error class) compared.  Written from the reference manuals (DESIGN.md §3, §13).
+//!
+//! Decisions worth knowing when reading results:
+//! * tables iterate in insertion order; a removed field keeps its slot until a *new* key is
+//!   inserted, so assigning nil during a traversal is fine; `#t` returns a border (unique on
+//!   hole-free sequences); `__len` is honoured whenever present;
+//! * errors raised by the interpreter are the opaque string `<runtime error>` under `pcall`
+//!   (`stack overflow` / `<require error>` for the other two internal classes); `error(v)` never
+//!   adds position information;
+//! * resources: one step per statement, call and loop iteration, plus proportional charges for
+//!   long strings (64 bytes a step), long string keys / comparisons, big snapshots and the O(n)
+//!   library functions.  A string longer than 1 MiB ends the run as `OutOfSteps`.  Neither is
+//!   catchable by `pcall`;
+//! * Luau `tostring(number)`: shortest round-trip digits, plain notation for a decimal exponent
+//!   in -6 ..= 20 (`1e-6` is `0.000001`, `1e-7` is `1e-07`, `1e21` is `1e+21`);
+//! * `RequireAction::External` (and a non-string argument) records `Event{name: "require"}` and
+//!   returns the string `<ext:ARG>`.
 
 mod fmt;
 mod interp;
